@@ -126,6 +126,14 @@ theorem len_pos (l : List α) : decide (len l > 0) = !l.isEmpty := by
   | nil => simp [len]
   | cons a t => simp [len]
 
+theorem len_eq_zero (l : List α) : (len l == 0) = l.isEmpty := by
+  cases l with
+  | nil => simp [len]
+  | cons a t => simp [len]; omega
+
+theorem len_ne_zero (l : List α) : (len l != 0) = !l.isEmpty := by
+  simp [bne, len_eq_zero]
+
 theorem sliceTo_length (pre l : List α) : sliceTo (pre ++ l) (len pre) = .ok pre := by
   simp [sliceTo, len]
 
@@ -154,8 +162,7 @@ theorem Set_Remove_loop1_eq (R : Rules α) (x : α) (m0 m : GoMap α) (pre l : L
       have hlen : ¬ (len (pre ++ ev :: rest) - (1 : Int) < 0) := by simp [len]; omega
       simp only [he, hb, sliceMake0, hlen, if_false, rbind_ok, sliceTo_length, sliceFrom_succ, if_true,
         Bool.true_or, List.nil_append, List.eraseP_append_right _ hpre', List.eraseP_cons_of_pos he]
-      rw [len_pos]
-      by_cases hne : (pre ++ rest).isEmpty = true <;> simp [hne]
+      by_cases hne : (pre ++ rest).isEmpty = true <;> simp [hne, len_pos, len_eq_zero, len_ne_zero]
     · have he : R.equiv x ev = false := by simpa using he
       have := ih (pre ++ [ev]) (by simpa using hb) (by simp [hpre, he])
       simp only [len, List.length_append, List.length_cons, List.length_nil, List.append_assoc,
@@ -431,27 +438,10 @@ theorem eachValue_addWhere (ord : GoMap α → GoMap α) (ho : MapOrder ord) (R 
     Set_EachValue ord s.buckets R cb rs.buckets = .ok (addWhere R p rs (iter R s)).buckets := by
   rw [Set_EachValue_eq ord ho R s ha, foldRes_ok cb _ hcb, addWhere_buckets]
 
-theorem cb_add (R : Rules α) (b : GoMap α) (v : α) :
-    (Res.bind (Set_Add b R v) fun x => Res.ok x) = .ok (if (fun _ => true) v then (add R ⟨b⟩ v).buckets else b) := by
-  have := Set_Add_eq R ⟨b⟩ v
-  simp only at this
-  simp [this]
-
-theorem cb_addIf (R : Rules α) (s2 : SetImpl α) (b : GoMap α) (v : α) :
-    (Res.bind (Res.bind (Set_Has s2.buckets R v) fun x2 =>
-        if x2 then (Res.bind (Set_Add b R v) fun x3 => Res.ok x3) else Res.ok b) fun r => Res.ok r) =
-      .ok (if (fun v => has R s2 v) v then (add R ⟨b⟩ v).buckets else b) := by
-  have := Set_Add_eq R ⟨b⟩ v
-  simp only at this
-  by_cases h : has R s2 v = true <;> simp [Set_Has_eq, this, h]
-
-theorem cb_addIfNot (R : Rules α) (s2 : SetImpl α) (b : GoMap α) (v : α) :
-    (Res.bind (Res.bind (Set_Has s2.buckets R v) fun x2 =>
-        if (!x2) then (Res.bind (Set_Add b R v) fun x3 => Res.ok x3) else Res.ok b) fun r => Res.ok r) =
-      .ok (if (fun v => !has R s2 v) v then (add R ⟨b⟩ v).buckets else b) := by
-  have := Set_Add_eq R ⟨b⟩ v
-  simp only at this
-  by_cases h : has R s2 v = true <;> simp [Set_Has_eq, this, h]
+/-- discharges "the function literal is the model's conditional add" whatever way the literal is written -/
+macro "cb_tac" R:term "," s:term : tactic =>
+  `(tactic| (intro b v; have hadd := Set_Add_eq $R ⟨b⟩ v; simp only at hadd
+             by_cases h : has $R $s v = true <;> simp [Set_Has_eq, hadd, h]))
 
 variable (same : Rules α → Rules α → Bool) (ord : GoMap α → GoMap α) (ho : MapOrder ord) (R : Rules α)
   (s1 s2 : SetImpl α) (h1 : Asc s1.buckets) (h2 : Asc s2.buckets) (hs : same R R = true)
@@ -460,31 +450,36 @@ include ho h1 h2 hs
 theorem Set_Union_eq :
     Set_Union same ord s1.buckets R s2.buckets R = .ok ⟨(union R s1 s2).buckets, R⟩ := by
   simp only [Set_Union, mustHaveSameRules_ok same _ _ R R hs, NewSet, rbind_ok, mapEmpty]
-  rw [eachValue_addWhere ord ho R s1 h1 (fun _ => true) _ (cb_add R) ⟨[]⟩, rbind_ok,
-    eachValue_addWhere ord ho R s2 h2 (fun _ => true) _ (cb_add R), rbind_ok]
-  rfl
+  rw [eachValue_addWhere ord ho R s1 h1 (fun _ => true) _ ?_ ⟨[]⟩, rbind_ok,
+    eachValue_addWhere ord ho R s2 h2 (fun _ => true) _ ?_, rbind_ok]
+  · rfl
+  all_goals cb_tac R, s1
 
 omit h2 in
 theorem Set_Intersection_eq :
     Set_Intersection same ord s1.buckets R s2.buckets R = .ok ⟨(intersection R s1 s2).buckets, R⟩ := by
   simp only [Set_Intersection, mustHaveSameRules_ok same _ _ R R hs, NewSet, rbind_ok, mapEmpty]
-  rw [eachValue_addWhere ord ho R s1 h1 (fun v => has R s2 v) _ (cb_addIf R s2) ⟨[]⟩, rbind_ok]
-  rfl
+  rw [eachValue_addWhere ord ho R s1 h1 (fun v => has R s2 v) _ ?_ ⟨[]⟩, rbind_ok]
+  · rfl
+  all_goals cb_tac R, s2
 
 omit h2 in
 theorem Set_Subtract_eq :
     Set_Subtract same ord s1.buckets R s2.buckets R = .ok ⟨(subtract R s1 s2).buckets, R⟩ := by
   simp only [Set_Subtract, mustHaveSameRules_ok same _ _ R R hs, NewSet, rbind_ok, mapEmpty]
-  rw [eachValue_addWhere ord ho R s1 h1 (fun v => !has R s2 v) _ (cb_addIfNot R s2) ⟨[]⟩, rbind_ok]
-  rfl
+  rw [eachValue_addWhere ord ho R s1 h1 (fun v => !has R s2 v) _ ?_ ⟨[]⟩, rbind_ok]
+  · rfl
+  all_goals cb_tac R, s2
 
 theorem Set_SymmetricDifference_eq :
     Set_SymmetricDifference same ord s1.buckets R s2.buckets R =
       .ok ⟨(symmetricDifference R s1 s2).buckets, R⟩ := by
   simp only [Set_SymmetricDifference, mustHaveSameRules_ok same _ _ R R hs, NewSet, rbind_ok, mapEmpty]
-  rw [eachValue_addWhere ord ho R s1 h1 (fun v => !has R s2 v) _ (cb_addIfNot R s2) ⟨[]⟩, rbind_ok,
-    eachValue_addWhere ord ho R s2 h2 (fun v => !has R s1 v) _ (cb_addIfNot R s1), rbind_ok]
-  rfl
+  rw [eachValue_addWhere ord ho R s1 h1 (fun v => !has R s2 v) _ ?_ ⟨[]⟩, rbind_ok,
+    eachValue_addWhere ord ho R s2 h2 (fun v => !has R s1 v) _ ?_, rbind_ok]
+  · rfl
+  · cb_tac R, s1
+  · cb_tac R, s2
 
 omit ho h1 h2 hs in
 /-- with incompatible rules all four panic (the branch `SetImpl` leaves out: it shares one `Rules` by construction) -/
